@@ -1,11 +1,11 @@
 /* C05 (a) util.h leaf helpers against their definitions, all inputs.
  * Loop-free helpers: h_util_bits, h_util_endian.
  * Length-driven loops (memczero, is_zero_array, memcmp_var):
- *   h_util_loops with -DUTIL_LC   any length, closed by loop contracts (needs hooks/C05_arith_util_loops.diff in the tree)
+ *   h_util_loops with -DUTIL_LC   any length, closed by loop contracts that the engine supplies from the unit table (no /repo edit)
  *   h_util_loops without          bounded stand-in len <= UTIL_LEN_MAX on the unchanged tree (full unwinding) */
 #include "spec_arith.h"
 #include <limits.h>
-size_t verif_gi;   /* ghost index named by the loop invariants of the hook; never assigned by the code */
+size_t verif_gi;   /* ghost index named by the loop invariants (engine/units/C05_arith.py); never assigned by the code */
 int verif_allzero; /* ghost: set by the harness when the array given to is_zero_array is known all-zero (calloc) */
 #include "src/secp256k1.c"
 #include "post.h"
@@ -64,7 +64,7 @@ void h_util_endian(void) {
     if (k == 7) REACH("write_be64 last byte");
 }
 
-/* Length-driven loops.  UTIL_LEN_MAX: with loop contracts (-DUTIL_LC, hooks/C05_arith_util_loops.diff applied)
+/* Length-driven loops.  UTIL_LEN_MAX: with loop contracts (-DUTIL_LC, contracts in the unit table)
  * any length up to 2^40; otherwise the unwinding bound (bounded stand-in on the unchanged tree).
  * Universal statements use the ghost index g (never assigned by the code). */
 #ifdef UTIL_LC
